@@ -410,3 +410,15 @@ func TestVF_C12_PendingRace(t *testing.T) {
 	defer st.Flush()
 	rapid.Check(t, func(t *rapid.T) { vfRunRaceCase(t, st) })
 }
+
+// TestVF_C12_PendingRaceDetector is the same property built with -race (conf
+// unit key "race": true): additionally every unsynchronised access between the
+// client, worker and close goroutines inside request.go / queue.go fails the
+// unit. A separate name keeps its work directory apart from the plain variant.
+func TestVF_C12_PendingRaceDetector(t *testing.T) {
+	logger.GetLogger("dragonboat").SetLevel(logger.CRITICAL)
+	st := vfhelp.NewStats("TestVF_C12_PendingRaceDetector",
+		"same generator and oracle as TestVF_C12_PendingRace, binary built with the Go race detector")
+	defer st.Flush()
+	rapid.Check(t, func(t *rapid.T) { vfRunRaceCase(t, st) })
+}
